@@ -322,6 +322,22 @@ Proof.
       + exists g. rewrite <- Hgr by assumption. auto.
       + rewrite <- B, <- Htp. assumption.
     - exfalso. pose proof (y_pub _ _ (z_thr _ Hz hp Hhp) gp Hgp). lia. }
+  (* the caller of a live thread keeps its publication stamp *)
+  assert (Hptp : forall x hp hi, x < nthr s -> x <> id -> ended (tpc (thr s x)) = false -> tkey (thr s x) <> None ->
+            thost (thr s x) = Some (hp, hi) -> tpub (thr s' hp) = tpub (thr s hp)).
+  { intros x hp hi Hlt Hxi Hlx Hk Hh. pose proof (i_thr _ _ _ Hi x Hlt) as Htx.
+    destruct (host_pubd s x hp hi Hi Hlt Hlx Hk Hh) as [Hlt' (gp & Hgp)].
+    assert (Hhp : hp < nthr s) by lia.
+    destruct (Nat.eq_dec hp id) as [->|Hne]; [|apply (Hsame hp Hhp Hne)].
+    rewrite Tself.
+    destruct (t_host _ _ _ Htx Hk Hlx) as [(hp' & hi' & g' & grp' & d' & H1 & H2 & H3 & H4 & H5 & H6 & H7 & H8 & H9)].
+    rewrite Hh in H1. inversion H1; subst hp' hi'.
+    destruct (parent_step_child w par s id e g' hi (tsync (thr s x)) Hi Hid Hl H8 H9) as [_ Q].
+    assert (Hpg : exists g2, pubd (tpc (e_self e)) = Some g2).
+    { destruct (tsync (thr s x)); [destruct Q as [_ [nw E]]; rewrite E; eexists; reflexivity|].
+      destruct Q as [_ E]. destruct (tpc (e_self e)); cbn in E; try contradiction; eexists; reflexivity. }
+    destruct Hpg as [g2 Hg2]. destruct (pubd_step s id e g2 Hi Hid Hl Hg2) as [(A' & B' & _)|(i & A' & _)]; [assumption|].
+    rewrite A' in Hgp. discriminate. }
   constructor.
   - intros x Hx'. destruct (le_lt_dec (nthr s) x) as [Hge|Hlt].
     + (* the new thread *)
@@ -358,7 +374,7 @@ Proof.
                    - destruct (t_root _ _ _ Htid Ek) as [R _]. congruence. }
                  destruct (Hsame c C1 Hci) as (P1 & _ & _ & P4 & _). exists c. rewrite P1, P4. split; [lia|auto].
         -- intros g Hg. destruct (Hpself g Hg) as [[A B]|[A B]]; [rewrite B; pose proof (y_pub _ _ Hyid g A); lia|lia].
-        -- rewrite Ib. intros k g grp A B C d D. eapply S2; eassumption.
+        -- intros k g grp A B C d D. eapply S2; eassumption.
         -- rewrite Id. intros hp hi g Hh Hg.
            assert (Hk : tkey (thr s id) <> None).
            { intros Hk. destruct (t_root _ _ _ Htid Hk) as [R _]. congruence. }
@@ -368,19 +384,19 @@ Proof.
            destruct (Hpself g Hg) as [[A B]|[A B]].
            ++ rewrite B. eapply (y_childpub _ _ Hyid); eassumption.
            ++ rewrite A. apply (y_pub _ _ (z_thr _ Hz hp Hhp) gp Hgp).
-        -- rewrite Ib. intros k g i grp A B C d D. eapply S1; eassumption.
+        -- intros k g i grp A B C d D. eapply S1; eassumption.
         -- rewrite Id, Ic, Ib. intros o q seen hp hi c d Hpc Hh Hc Hk.
            destruct (S3 o q seen hp hi c d Hpc Hh Hc Hk) as (B1 & B2 & B3). split; [assumption|]. split; [assumption|].
            intros x Hxd Hxq X grp y He Hyg.
            destruct (host_pubd s id hp hi Hi Hid Hlive ltac:(congruence) Hh) as [Hlt' Hgp].
            assert (Hhp : hp < nthr s) by lia. destruct (Hsame hp Hhp ltac:(lia)) as (_ & P2 & _).
-           eapply B3; try eassumption. apply Hearl; assumption.
+           apply (B3 x Hxd Hxq X grp y); [apply Hearl; assumption|assumption].
         -- rewrite Id, Ic, Ib. intros o hp hi c d Hpc Hh Hc Hk.
            destruct (S4 o hp hi c d Hpc Hh Hc Hk) as (B1 & B2 & B3). split; [assumption|]. split; [assumption|].
            intros x Hxd X grp y He Hyg.
            destruct (host_pubd s id hp hi Hi Hid Hlive ltac:(congruence) Hh) as [Hlt' Hgp].
            assert (Hhp : hp < nthr s) by lia. destruct (Hsame hp Hhp ltac:(lia)) as (_ & P2 & _).
-           eapply B3; try eassumption. apply Hearl; assumption.
+           apply (B3 x Hxd X grp y); [apply Hearl; assumption|assumption].
       * (* the other threads *)
         pose proof (z_thr _ Hz x Hlt) as Hy. pose proof (i_thr _ _ _ Hi x Hlt) as Htx.
         destruct (Hsame x Hlt Hxi) as (P1 & P2 & P3 & P4 & P5).
@@ -398,10 +414,11 @@ Proof.
                      +++ exfalso. rewrite A2 in C3. inversion C3; subst. 
                          destruct (Toth x Hlt Hxi) as [E'|(hi' & r0 & h' & Q1 & Q2 & E')]; [|rewrite A2 in Q2; inversion Q2; subst].
                          *** unfold s', apply_eff in E'. cbn in E'. rewrite A4, A3 in E'. cbn in E'.
-                             rewrite upd_same in E'. apply (f_equal tslots) in E'. cbn in E'.
-                             rewrite <- E' in Hn. rewrite set_slot_same in Hn by assumption. discriminate.
-                         *** rewrite E' in E. apply (f_equal tslots) in E. cbn in E. rewrite <- E in Hn.
-                             rewrite set_slot_same in Hn by assumption. discriminate.
+                             rewrite upd_same in E'. rewrite (upd_other (thr s) id (e_self e) x Hxi) in E'. apply (f_equal tslots) in E'. cbn in E'.
+                             pose proof (set_slot_same (tslots (thr s x)) i r' Hi0) as Hss. rewrite E' in Hss. congruence.
+                         *** rewrite E' in E. apply (f_equal tslots) in E. cbn in E.
+                             match goal with Hn0 : nth_error (tslots (thr s x)) ?j = Some None, Hj : ?j < length (tslots (thr s x)) |- _ =>
+                               pose proof (set_slot_same (tslots (thr s x)) j r0 Hj) as Hss; rewrite E in Hss; congruence end.
               ** destruct (Hsame c C1 Hci) as (Q1 & _ & _ & Q4 & _). exists c. rewrite Q1, Q4. split; [lia|auto].
            ++ rewrite E in *. cbn [slot_write tslots] in *. rewrite set_slot_length in Hi0.
               assert (Hne : i <> hi) by (intros ->; rewrite set_slot_same in Hn by assumption; discriminate).
@@ -415,21 +432,7 @@ Proof.
            assert (Hk : tkey (thr s x) <> None).
            { intros Hk. destruct (t_root _ _ _ Htx Hk) as [R _]. congruence. }
            assert (Hlx : ended (tpc (thr s x)) = false) by (destruct (tpc (thr s x)); try discriminate; reflexivity).
-           destruct (host_pubd s x hp hi Hi Hlt Hlx Hk Hh) as [Hlt' (gp & Hgp)].
-           assert (Hhp : hp < nthr s) by lia.
-           assert (Htp : tpub (thr s' hp) = tpub (thr s hp)).
-           { destruct (Nat.eq_dec hp id) as [->|Hne]; [|apply (Hsame hp Hhp Hne)].
-             rewrite Tself.
-             destruct (t_host _ _ _ Htx Hk Hlx) as [(hp' & hi' & g' & grp' & d' & H1 & H2 & H3 & H4 & H5 & H6 & H7 & H8 & H9)].
-             rewrite Hh in H1. inversion H1; subst hp' hi'.
-             destruct (parent_step_child w par s id e g' hi (tsync (thr s x)) Hi Hid Hl H8 H9) as [_ Q].
-             assert (Hpg : exists g2, pubd (tpc (e_self e)) = Some g2).
-             { destruct (tsync (thr s x)); [destruct Q as [_ [nw E]]; rewrite E; eexists; reflexivity|].
-               destruct Q as [_ E]. destruct (tpc (e_self e)); cbn in E; try contradiction; eexists; reflexivity. }
-             destruct Hpg as [g2 Hg2]. destruct (Hpself g2 Hg2) as [[A B]|[A B]]; [assumption|].
-             exfalso. destruct (pubd_step s id e g2 Hi Hid Hl Hg2) as [(A' & B' & _)|(i & A' & _)]; [|rewrite A' in Hgp; discriminate].
-             pose proof (y_pub _ _ Hyid g2 A'). lia. }
-           rewrite Htp. eapply (y_childpub _ _ Hy); eassumption.
+           rewrite (Hptp x hp hi Hlt Hxi Hlx Hk Hh). eapply (y_childpub _ _ Hy); eassumption.
         -- intros k g i grp A B C d D. apply Hem. eapply (y_pedges _ _ Hy); eassumption.
         -- intros o q seen hp hi c d Hpc Hh Hc Hk.
            destruct (y_bfs _ _ Hy o q seen hp hi c d Hpc Hh Hc Hk) as (B1 & B2 & B3). split; [assumption|]. split; [assumption|].
@@ -437,40 +440,95 @@ Proof.
            assert (Hlx : ended (tpc (thr s x)) = false) by (rewrite Hpc; reflexivity).
            destruct (host_pubd s x hp hi Hi Hlt Hlx ltac:(congruence) Hh) as [Hlt' Hgp].
            assert (Hhp : hp < nthr s) by lia.
-           eapply B3; try eassumption. apply Hearl; try assumption.
-           destruct (Nat.eq_dec hp id) as [->|Hne]; [|apply (Hsame hp Hhp Hne)].
-           rewrite Tself. destruct Hgp as [gp Hgp].
-           destruct (t_host _ _ _ Htx ltac:(congruence) Hlx) as [(hp' & hi' & g' & grp' & d' & H1 & H2 & H3 & H4 & H5 & H6 & H7 & H8 & H9)].
-           rewrite Hh in H1. inversion H1; subst hp' hi'.
-           destruct (parent_step_child w par s id e g' hi (tsync (thr s x)) Hi Hid Hl H8 H9) as [_ Q].
-           assert (Hpg : exists g2, pubd (tpc (e_self e)) = Some g2).
-           { destruct (tsync (thr s x)); [destruct Q as [_ [nw E]]; rewrite E; eexists; reflexivity|].
-             destruct Q as [_ E]. destruct (tpc (e_self e)); cbn in E; try contradiction; eexists; reflexivity. }
-           destruct Hpg as [g2 Hg2]. destruct (pubd_step s id e g2 Hi Hid Hl Hg2) as [(A' & B' & _)|(i & A' & _)]; [assumption|].
-           rewrite A' in Hgp. discriminate.
+           apply (B3 x0 Hxd Hxq X grp y); [|assumption]. apply Hearl; try assumption.
+           apply (Hptp x hp hi Hlt Hxi Hlx ltac:(congruence) Hh).
         -- intros o hp hi c d Hpc Hh Hc Hk.
            destruct (y_done _ _ Hy o hp hi c d Hpc Hh Hc Hk) as (B1 & B2 & B3). split; [assumption|]. split; [assumption|].
            intros x0 Hxd X grp y He Hyg.
            assert (Hlx : ended (tpc (thr s x)) = false) by (destruct Hpc as [E|E]; rewrite E; reflexivity).
            destruct (host_pubd s x hp hi Hi Hlt Hlx ltac:(congruence) Hh) as [Hlt' Hgp].
            assert (Hhp : hp < nthr s) by lia.
-           eapply B3; try eassumption. apply Hearl; try assumption.
-           destruct (Nat.eq_dec hp id) as [->|Hne]; [|apply (Hsame hp Hhp Hne)].
-           rewrite Tself. destruct Hgp as [gp Hgp].
-           destruct (t_host _ _ _ Htx ltac:(congruence) Hlx) as [(hp' & hi' & g' & grp' & d' & H1 & H2 & H3 & H4 & H5 & H6 & H7 & H8 & H9)].
-           rewrite Hh in H1. inversion H1; subst hp' hi'.
-           destruct (parent_step_child w par s id e g' hi (tsync (thr s x)) Hi Hid Hl H8 H9) as [_ Q].
-           assert (Hpg : exists g2, pubd (tpc (e_self e)) = Some g2).
-           { destruct (tsync (thr s x)); [destruct Q as [_ [nw E]]; rewrite E; eexists; reflexivity|].
-             destruct Q as [_ E]. destruct (tpc (e_self e)); cbn in E; try contradiction; eexists; reflexivity. }
-           destruct Hpg as [g2 Hg2]. destruct (pubd_step s id e g2 Hi Hid Hl Hg2) as [(A' & B' & _)|(i & A' & _)]; [assumption|].
-           rewrite A' in Hgp. discriminate.
+           apply (B3 x0 Hxd X grp y); [|assumption]. apply Hearl; try assumption.
+           apply (Hptp x hp hi Hlt Hxi Hlx ltac:(congruence) Hh).
   - intros a b ga gb Ha Hb Hab Hpa Hpb.
     destruct (Hpback a ga Ha Hpa) as (Ha' & [[A1 A2]|(-> & A2 & A3)]); destruct (Hpback b gb Hb Hpb) as (Hb' & [[B1 B2]|(-> & B2 & B3)]).
     + rewrite A2, B2. eapply (z_dist _ Hz); eassumption.
     + rewrite A2, B2. pose proof (y_pub _ _ (z_thr _ Hz a Ha') ga A1). lia.
     + rewrite A2, B2. pose proof (y_pub _ _ (z_thr _ Hz b Hb') gb B1). lia.
     + congruence.
+Qed.
+
+
+Lemma inv5_start_run s ks : inv1 w par s -> inv5 s -> inv5 (start_run s ks).
+Proof.
+  intros Hi Hz. set (s' := start_run s ks).
+  assert (Hnew : thr s' (nthr s) = root_thread (S (nrun s))) by (unfold s', start_run; cbn; apply upd_same).
+  assert (Hoth : forall x, x < nthr s -> thr s' x = thr s x) by (intros x Hx; unfold s', start_run; cbn; apply upd_other; lia).
+  assert (Hgr : forall x, x < nthr s -> groups w s' x = groups w s x) by (intros; apply groups_start_run; assumption).
+  assert (Hearl : forall hp X x grp, hp < nthr s -> earlier s' hp X x grp -> earlier s hp X x grp).
+  { intros hp X x grp Hhp (E1 & E2 & (g & E3 & E4) & E5). change (nthr s') with (S (nthr s)) in E1.
+    destruct (Nat.eq_dec X (nthr s)) as [->|HX]; [rewrite Hnew in E2; discriminate|].
+    assert (HX' : X < nthr s) by lia. rewrite (Hoth X), (Hoth hp) in * by assumption. rewrite Hgr in E4 by assumption.
+    split; [assumption|]. split; [assumption|]. split; [eauto|assumption]. }
+  assert (Hhost : forall x hp hi, x < nthr s -> ended (tpc (thr s x)) = false -> thost (thr s x) = Some (hp, hi) -> hp < nthr s).
+  { intros x hp hi Hx Hl Hh. assert (Hk : tkey (thr s x) <> None).
+    { intros Hk. destruct (t_root _ _ _ (i_thr _ _ _ Hi x Hx) Hk) as [R _]. congruence. }
+    destruct (host_pubd s x hp hi Hi Hx Hl Hk Hh) as [F _]. lia. }
+  constructor.
+  - intros x Hx. change (nthr s') with (S (nthr s)) in Hx. destruct (Nat.eq_dec x (nthr s)) as [->|Hxn].
+    + constructor; rewrite Hnew; cbn; try (intros; discriminate); try (intros; lia); try (intros; contradiction).
+      all: intros; destruct H; discriminate.
+    + assert (Hx' : x < nthr s) by lia. pose proof (z_thr _ Hz x Hx') as Hy.
+      constructor; rewrite ?Hoth, ?Hgr by assumption; try apply Hy.
+      * intros i Hi0 Hst Hn. destruct (y_child _ _ Hy i Hi0 Hst Hn) as (c & C1 & C2 & C3).
+        exists c. change (nthr s') with (S (nthr s)). rewrite Hoth by assumption. split; [lia|auto].
+      * intros hp hi g Hh Hg.
+        assert (Hl : ended (tpc (thr s x)) = false) by (destruct (tpc (thr s x)); try discriminate; reflexivity).
+        rewrite (Hoth hp) by (eapply Hhost; eassumption). eapply (y_childpub _ _ Hy); eassumption.
+      * intros o q seen hp hi c d Hpc Hh Hc Hk. destruct (y_bfs _ _ Hy o q seen hp hi c d Hpc Hh Hc Hk) as (B1 & B2 & B3).
+        split; [assumption|]. split; [assumption|]. intros x0 Hxd Hxq X grp y He Hyg.
+        apply (B3 x0 Hxd Hxq X grp y); [|assumption]. apply Hearl; [|assumption].
+        eapply Hhost; [eassumption|rewrite Hpc; reflexivity|eassumption].
+      * intros o hp hi c d Hpc Hh Hc Hk. destruct (y_done _ _ Hy o hp hi c d Hpc Hh Hc Hk) as (B1 & B2 & B3).
+        split; [assumption|]. split; [assumption|]. intros x0 Hxd X grp y He Hyg.
+        apply (B3 x0 Hxd X grp y); [|assumption]. apply Hearl; [|assumption].
+        eapply Hhost; [eassumption|destruct Hpc as [E|E]; rewrite E; reflexivity|eassumption].
+  - intros a b ga gb Ha Hb Hab Hpa Hpb. change (nthr s') with (S (nthr s)) in *.
+    destruct (Nat.eq_dec a (nthr s)) as [->|Han]; [rewrite Hnew in Hpa; discriminate|].
+    destruct (Nat.eq_dec b (nthr s)) as [->|Hbn]; [rewrite Hnew in Hpb; discriminate|].
+    rewrite (Hoth a), (Hoth b) in * by lia. eapply (z_dist _ Hz a b); try eassumption; lia.
+Qed.
+
+Lemma inv5_quiet s s' : inv5 s -> quiescent s = true -> thr s' = thr s -> nthr s' = nthr s -> inv5 s'.
+Proof.
+  intros Hz Hq Ht Hn. pose proof (quiescent_ended s Hq) as He.
+  constructor.
+  - intros x Hx. rewrite Hn in Hx. specialize (He x Hx).
+    constructor; rewrite Ht; destruct (tpc (thr s x)); try discriminate; cbn;
+      try (intros; discriminate); try (intros; contradiction).
+    all: intros; destruct H; discriminate.
+  - intros a b ga gb Ha _ _ Hpa _. rewrite Hn in Ha. rewrite Ht in Hpa. specialize (He a Ha).
+    destruct (tpc (thr s a)); discriminate.
+Qed.
+
+Lemma inv5_event s e s' : inv1 w par s -> inv2 w s -> inv4 w s -> inv5 s -> do_event w s e = Some s' -> inv5 s'.
+Proof.
+  intros Hi Hj Hx Hz H. destruct e as [t|ks|ks|ks vs]; cbn [do_event] in H.
+  - eapply inv5_step; eassumption.
+  - destruct (forallb (fun k => Nat.ltb k (wn w)) ks); inversion H. apply inv5_start_run; assumption.
+  - destruct (quiescent s) eqn:Hq; inversion H. eapply inv5_quiet; try eassumption; reflexivity.
+  - destruct (quiescent s) eqn:Hq; inversion H. eapply inv5_quiet; try eassumption; reflexivity.
+Qed.
+
+Lemma inv5_init inputs : inv5 (init par inputs).
+Proof. constructor; cbn; intros; lia. Qed.
+
+Lemma reach_inv5 inputs s : reach w par inputs s -> inv1 w par s /\ inv2 w s /\ inv4 w s /\ inv5 s.
+Proof.
+  induction 1 as [|s e s' Hr (IH1 & IH2 & IH3 & IH4) He].
+  - split; [apply inv1_init|split; [apply inv2_init|split; [apply inv4_init|apply inv5_init]]].
+  - split; [eapply inv1_event; eassumption|]. split; [eapply inv2_event; eassumption|].
+    split; [eapply inv4_event; eassumption|eapply inv5_event; eassumption].
 Qed.
 
 End Inv5.
